@@ -183,6 +183,7 @@ Constructed == <<
                      Comp("x", TTag("A", 1, "E", IA5), "M"), C(TNull)>>, FALSE, <<>>)),
   D("W-def", TSet(<<Df(Int0, I(7)), O(TBool), C(TNull)>>, FALSE, <<>>)),
   D("W-ext", TSet(<<C(TBool)>>, TRUE, <<Comp("x", TTag("C", 0, "I", Int0), "M")>>)),
+  D("W-choice", TSet(<<C(TRef("K-ib")), Comp("x", TTag("C", 0, "I", TBool), "M"), Comp("x", TTag("C", 1, "I", IA5), "O")>>, FALSE, <<>>)),
   D("K-ib", TChoice(<<C(Int0), C(TBool)>>, FALSE, <<>>)),
   D("K-one", TChoice(<<C(TNull)>>, FALSE, <<>>)),
   D("K-order", TChoice(<<Comp("x", TTag("C", 2, "I", Int0), "M"), Comp("x", TTag("C", 0, "I", TBool), "M"),
